@@ -106,21 +106,22 @@ Lemma handle_space : forall fuel s e s' o, handle fuel s e = (s', o) ->
   sv_space s' = sv_space s \/
   (exists chan tok l ds, e = EReq chan tok (RRead l) /\ o = ORead ds /\ read_all (sv_space s) l = (sv_space s', ds)) \/
   (exists chan tok l sts, e = EReq chan tok (RWrite l) /\ o = OWrite sts /\
-                          srv_write_all (sv_items s) (sv_space s) l = (sv_space s', sts)).
+                          srv_write_all (sv_items s) (sv_space s) l = (sv_space s', sts)) \/
+  (exists items l, sv_space s' = notify_all items (sv_space s) l).
 Proof.
   intros fuel s e s' o H. destruct e as [chan tok r|id|id]; cbn [handle] in H.
   - destruct (negb (has_handler r)); [inv_pair H; now left|].
     destruct (check_session s (svc_of r) tok); [inv_pair H; now left|].
     destruct r; cbn [dispatch] in H.
     + destruct (read_all (sv_space s) l) as [sp ds] eqn:E. inv_pair H. right. left. exists chan, tok, l, ds. now repeat split.
-    + destruct (srv_write_all (sv_items s) (sv_space s) l) as [sp sts] eqn:E. inv_pair H. right. right. exists chan, tok, l, sts. now repeat split.
+    + destruct (srv_write_all (sv_items s) (sv_space s) l) as [sp sts] eqn:E. inv_pair H. right. right. left. exists chan, tok, l, sts. now repeat split.
     + break_in H; inv_pair H; now left.
     + break_in H; inv_pair H; now left.
     + break_in H; inv_pair H; now left.
     + break_in H; inv_pair H; now left.
     + break_in H; inv_pair H; now left.
     + break_in H; inv_pair H; now left.
-    + break_in H; inv_pair H; now left.
+    + break_in H; inv_pair H; try (now left). right. right. right. eexists _, _. reflexivity.
     + break_in H; inv_pair H; now left.
     + break_in H; inv_pair H; now left.
     + break_in H; inv_pair H; now left.
@@ -133,10 +134,13 @@ Lemma handle_frozen : forall fuel s e s' o k0 n0, handle fuel s e = (s', o) ->
   lacks n0 FlagCurrentWrite = true -> frozen_as (sv_space s) k0 n0 -> frozen_as (sv_space s') k0 n0.
 Proof.
   intros fuel s e s' o k0 n0 H Hl Hf.
-  destruct (handle_space _ _ _ _ _ H) as [E|[(chan & tok & l & ds & _ & _ & E)|(chan & tok & l & sts & _ & _ & E)]].
+  destruct (handle_space _ _ _ _ _ H) as [E|[(chan & tok & l & ds & _ & _ & E)|[(chan & tok & l & sts & _ & _ & E)|(items & l & E)]]].
   - now rewrite E.
   - eapply read_all_frozen; eassumption.
   - eapply srv_write_all_frozen; eassumption.
+  - rewrite E. clear E. unfold notify_all. revert Hf. generalize (sv_space s). induction l as [|na t IH]; intros sp Hf; cbn [fold_left]; [exact Hf|].
+    apply IH. destruct Hf as (n1 & G & S). destruct (notify_frame items sp (fst na) k0 n1 G) as (n2 & G2 & S2).
+    exists n2. split; [exact G2 | eapply same_but_class_trans; eassumption].
 Qed.
 
 Lemma run_frozen : forall fuel h s k0 n0, lacks n0 FlagCurrentWrite = true ->
@@ -152,11 +156,8 @@ Lemma handle_read_inv : forall fuel s chan tok l s' ds, handle fuel s (EReq chan
   read_all (sv_space s) l = (sv_space s', ds).
 Proof.
   intros fuel s chan tok l s' ds H.
-  destruct (handle_space _ _ _ _ _ H) as [E|[(c & t & l' & ds' & E1 & E2 & E3)|(c & t & l' & sts & E1 & E2 & _)]].
-  - cbn [handle has_handler negb svc_of] in H. destruct (check_session s SvcRead tok); [discriminate|].
-    cbn [dispatch] in H. destruct (read_all (sv_space s) l) as [sp ds0]. inv_pair H. reflexivity.
-  - inversion E1; subst. inversion E2; subst. exact E3.
-  - discriminate.
+  cbn [handle has_handler negb svc_of] in H. destruct (check_session s SvcRead tok); [discriminate|].
+  cbn [dispatch] in H. destruct (read_all (sv_space s) l) as [sp ds0]. inv_pair H. reflexivity.
 Qed.
 
 Lemma handle_write_inv : forall fuel s chan tok l s' sts, handle fuel s (EReq chan tok (RWrite l)) = (s', OWrite sts) ->
@@ -483,7 +484,7 @@ Proof.
       destruct (owner_is (sub_owner sb) tok); [|inv_pair H; now apply Same].
       destruct (create_items (sv_items s) (sv_item_ctr s) sub (sub_owner sb) l) as [[items ctr] ids] eqn:E. inv_pair H.
       cbn [weight] in *. destruct (create_items_spec _ _ _ _ _ _ _ _ E W2 D2 B2) as (D' & B' & C' & _).
-      unfold ids_inv. cbn [set_items sv_subs sv_last_sub sv_items sv_item_ctr].
+      unfold ids_inv. cbn [set_space set_items sv_subs sv_last_sub sv_items sv_item_ctr].
       split; [exact (conj D1 (conj B1 (conj D' B')))|]. repeat split; lia.
     + (* set mode *)
       destruct (alist_get tok (sv_sessions s)); [|inv_pair H; now apply Same].
@@ -544,7 +545,7 @@ Proof.
     destruct (owner_is (sub_owner sb) tok); [|inv_pair H; now apply Same].
     destruct (create_items (sv_items s) (sv_item_ctr s) sub (sub_owner sb) l) as [[items ctr] ids] eqn:E. inv_pair H.
     cbn [weight] in *. destruct (create_items_spec _ _ _ _ _ _ _ _ E W2 D2 B2) as (_ & _ & _ & _ & FI & OI).
-    cbn [set_items sv_subs sv_items]. split; [auto|]. intros id it Hg _. rewrite OI; [exact Hg|].
+    cbn [set_space set_items sv_subs sv_items]. split; [auto|]. intros id it Hg _. rewrite OI; [exact Hg|].
     intros C. destruct (FI _ C) as [_ Hn]. congruence.
   - destruct (alist_get tok (sv_sessions s)); [|inv_pair H; now apply Same].
     destruct (set_mode_all (sv_items s) tok mode ids) as [items sts] eqn:E. inv_pair H.
@@ -684,10 +685,13 @@ Lemma handle_no_panic : forall fuel s e s' o, handle fuel s e = (s', o) -> space
 Proof.
   intros fuel s e s' o H OK.
   assert (Sp : space_ok fuel (sv_space s')).
-  { destruct (handle_space _ _ _ _ _ H) as [E|[(c & t & l & ds & _ & _ & E)|(c & t & l & sts & _ & _ & E)]].
+  { destruct (handle_space _ _ _ _ _ H) as [E|[(c & t & l & ds & _ & _ & E)|[(c & t & l & sts & _ & _ & E)|(items & l & E)]]].
     - now rewrite E.
     - eapply space_ok_same; [eapply read_all_same_refs; exact E | exact OK].
-    - eapply space_ok_same; [eapply srv_write_all_same_refs; exact E | exact OK]. }
+    - eapply space_ok_same; [eapply srv_write_all_same_refs; exact E | exact OK].
+    - rewrite E. clear E. eapply space_ok_same; [|exact OK]. unfold notify_all. generalize (sv_space s).
+      induction l as [|na t IH]; intros sp; cbn [fold_left]; [apply same_refs_refl|].
+      eapply same_refs_trans; [apply notify_same_refs | apply IH]. }
   split; [|split; [|exact Sp]].
   - intros w. destruct e as [chan tok r|id|id]; cbn [handle] in H; [|inv_pair H; discriminate|inv_pair H; discriminate].
     destruct (negb (has_handler r)); [inv_pair H; discriminate|].
@@ -754,4 +758,33 @@ Proof.
   destruct (negb (has_handler r)); [inv_pair H; split; discriminate|].
   destruct (check_session s (svc_of r) tok); [inv_pair H; split; discriminate|].
   destruct r; cbn [dispatch] in H; break_in H; inv_pair H; split; discriminate.
+Qed.
+
+(* ---------------- C31: data change notifications go through the read check ---------------- *)
+
+Lemma notify_vals_space : forall items sp n, fst (notify_vals items sp n) = notify items sp n.
+Proof.
+  unfold notify. induction items as [|e t IH]; intros sp n; cbn [notify_vals fold_left]; [reflexivity|].
+  destruct (snd (it_node (snd e)) =? snd n); [|apply IH].
+  destruct (read_one sp (n, it_attr (snd e))) as [sp1 d] eqn:E. cbn [fst].
+  specialize (IH sp1 n). destruct (notify_vals t sp1 n) as [sp2 l]. cbn [fst] in *. exact IH.
+Qed.
+
+Lemma notify_vals_denied : forall items sp ns k n0, ns <? sp_ns sp = true -> frozen_as sp k n0 ->
+  lacks n0 FlagCurrentRead = true ->
+  forall e, In e (snd (notify_vals items sp (ns, k))) -> snd e = status_dv StBadUserAccessDenied.
+Proof.
+  induction items as [|it t IH]; intros sp ns k n0 Hns Hf Hl e He; cbn [notify_vals] in He; [destruct He|].
+  cbn [snd] in He. destruct (snd (it_node (snd it)) =? k).
+  - revert He.
+    match goal with |- context [read_one ?a ?b] => destruct (read_one a b) as [sp1 d] eqn:E end.
+    match goal with |- context [notify_vals ?a ?b ?c] => destruct (notify_vals a b c) as [sp2 l] eqn:E2 end.
+    cbn [snd]. intros He.
+    destruct Hf as (n1 & G & S).
+    assert (L1 : lacks n1 FlagCurrentRead = true) by now rewrite (same_but_class_lacks _ _ _ S).
+    assert (Hd : d = status_dv StBadUserAccessDenied /\ sp1 = sp).
+    { unfold read_one in E. rewrite Hns in E. rewrite (read_denied _ _ _ _ G L1) in E. inversion E. now split. }
+    destruct Hd as [-> ->]. cbn [In] in He. destruct He as [He|He]; [subst e; reflexivity|].
+    apply (IH sp ns k n0 Hns (ex_intro _ n1 (conj G S)) Hl e). now rewrite E2.
+  - now apply (IH sp ns k n0 Hns Hf Hl e).
 Qed.
